@@ -54,6 +54,17 @@ Proof.
   intros Hn. apply (run_total_gen n Hn); [apply setup_wf|]. rewrite setup_table_length. f_equal. lia.
 Qed.
 
+(* fresh caches satisfy the invariant the transparency theorem starts from *)
+Lemma fresh_caches_ok n (oracle : sigquery -> bool) (sigkey : sigquery -> Z)
+      (T F C : Type) (is_coinbase : T -> bool) (wtxid : T -> Z) (exec_key : Z -> F -> Z) (script_runs : T -> F -> C -> list run) (committed : T -> C) :
+  2 <= n < 2 ^ 32 ->
+  vstate_ok (compute_hashes n) oracle sigkey T F C is_coinbase wtxid exec_key script_runs committed (mk_vstate (cuckoo_setup n) (cuckoo_setup n)).
+Proof.
+  intros Hn. unfold vstate_ok, sig_ok. cbn [vs_sig vs_script].
+  split; [split; [apply setup_wf | split; [apply setup_locs_ok; exact Hn | apply setup_inv]]|].
+  split; [apply setup_wf | split; [apply setup_locs_ok; exact Hn | apply setup_inv]].
+Qed.
+
 (* ---- concrete witnesses ---- *)
 Definition w_locs : Z -> list nat := compute_hashes 2.
 Definition w_oracle (_ : sigquery) : bool := true.
